@@ -47,7 +47,7 @@ from lib.core import Ctx, rat
 from lib import stage
 
 ID = "C19"
-LEAN_TARGETS = ["AiuVerif.Props.C19", "AiuVerif.Props.C19Link"]
+LEAN_TARGETS = ["AiuVerif.Props.C19", "AiuVerif.Props.C19Link", "AiuVerif.Props.C19Ranks"]
 THEOREMS = [
     "AiuVerif.C19.merge_sorted_disjoint",
     "AiuVerif.C19.merge_covers",
@@ -69,6 +69,10 @@ THEOREMS = [
     "AiuVerif.C19.bounds_fail_negative_power",
     "AiuVerif.C19.ts_zero_is_ignored",
     "AiuVerif.C19.bounds_behind_compute_power",   # Watts >= 0 discharged by C10.nonneg
+    # several ranks, rank after rank: no period across ranks whose sampled ranges overlap (and the converse witness)
+    "AiuVerif.C19.foldl_frame",
+    "AiuVerif.C19.collect_append_overlapping",
+    "AiuVerif.C19.cross_rank_period_when_disjoint",
 ]
 RULE = ("ops merge/msplit/split/stats/pipe. Exhaustive: all kernel families of <=3 intervals with endpoints 0..4 "
         "(merge), all power periods in 0..4 x kernel families of <=2 (quick) / <=3 (thorough) intervals over 0..5 "
